@@ -133,6 +133,11 @@ func (c *Cluster) propose(t structs.MessageType, buf []byte) (any, error) {
 		return nil, perr
 	}
 	c.Results[idx] = CanonResult(resp)
+	if _, isErr := resp.(error); isErr {
+		c.Run.Hit("apply.err." + opOfDesc(desc))
+	} else {
+		c.Run.Hit("apply.ok." + opOfDesc(desc))
+	}
 	if c.curOut != nil {
 		c.curOut.Appended = append(c.curOut.Appended, idx)
 		c.curOut.Resp = resp
